@@ -214,10 +214,9 @@ def run(ctx):
         bad = _corrupt(recs, os.environ["VERIF_C13_CORRUPT"])
         ctx.notes.append("VERIF_C13_CORRUPT=%s applied to record id=%s" % (os.environ["VERIF_C13_CORRUPT"], bad["id"]))
     # 4. code -> spec
-    nval, chunk = 0, 40000
+    nval, chunk, seen = 0, 40000, set()
     for i in range(0, len(recs), chunk):
         part = recs[i:i + chunk]
-        clean = True
         pp = ctx.path("chunk.ndjson")
         vlib.write_ndjson(pp, part)
         # one pass with monitor and strict invariants together; only if something
@@ -233,7 +232,7 @@ def run(ctx):
         bads = ctx.emitted(rep["out"], marker="BAD")
         if not bads:
             raise vlib.Inconclusive("trace validation failed (%s at record %s) but the report run lists nothing" % (inv, l))
-        seen, nbad = set(), 0
+        nbad = 0
         for b in sorted(bads, key=lambda b: b["l"]):
             r = part[b["l"] - 1]
             for inv in sorted(b["mon"]):
